@@ -249,7 +249,7 @@ impl Part for LoadedPart {
             .boxed()
     }
     fn cases(&self, tier: Tier) -> u64 {
-        tier.pick(12_000, 600_000)
+        tier.pick(60_000, 600_000)
     }
     fn exec(&self, c: &LoadedCase, out: &mut CaseOut) -> Result<(), Fail> {
         let full = Case { setup: c.case.setup.clone(), ops: loaded_ops(c) };
@@ -518,7 +518,7 @@ impl Part for TrafficPart {
         (crate::cluster::cluster_spec(&p), any::<u16>(), any::<u16>(), any::<u16>()).prop_map(|(spec, crash, leave, split)| TrafficCase { spec, crash, leave, split }).boxed()
     }
     fn cases(&self, tier: Tier) -> u64 {
-        tier.pick(1_500, 60_000)
+        tier.pick(6_000, 60_000)
     }
     fn exec(&self, c: &TrafficCase, out: &mut CaseOut) -> Result<(), Fail> {
         exec_traffic(c, out)
